@@ -35,7 +35,7 @@ def parse_check(ctx):
     pid = ctx.pid
     ctx.build_harness()
     thorough = ctx.tier == 'thorough'
-    cfg = CFG % dict(seed=ctx.seed, K=3 if thorough else 1, maxdev=1, fam=FAM[pid], big='TRUE')
+    cfg = CFG % dict(seed=ctx.seed, K=3 if thorough else 1, maxdev=2 if thorough else 1, fam=FAM[pid], big='TRUE')
     r = ctx.tlc('MC_Parse', cfg, name='MC_Parse_' + pid)
     s = ctx.harness('parsecases', prop=pid, **{'in': r['out']})
     viol = list(s['violations'])
@@ -53,6 +53,13 @@ def parse_check(ctx):
         sp = ctx.harness('sched', prop=pid, **{'in': rp['out']})
         viol += list(sp['violations'])
         extra['gate_replay'] = dict(sp['compared'], schedules=sp['info'].get('schedules', 0))
+    if pid in ('C01', 'C06', 'C08'):
+        # M3: recorded calls on byte-level mutants / random histories, validated event by event by TLC (Trace.tla)
+        from . import tracefam
+        tv, tst = tracefam.api_traces(ctx, pid, 40000 if thorough else 1600)
+        viol += tv
+        extra['recorded_events_validated_by_TLC'] = tst['events']
+        extra['trace_rejections_of_other_properties'] = tst['rejections_belonging_to_other_properties']
     if thorough or pid == 'C01':
         # small-step run: every cursor state of the automata is a TLC state; the walk terminates
         cfg2 = CFG % dict(seed=ctx.seed, K=1, maxdev=1, fam='defects' if not thorough else FAM[pid], big='FALSE')
